@@ -49,3 +49,5 @@ def setup(extra_apps=(), routers=()):
     from django_evolution.compat.patches import apply_patches
     apply_patches()
     django.setup()
+    import logging
+    logging.disable(logging.CRITICAL)   # the package logs full tracebacks for every rejected evolution
